@@ -61,7 +61,11 @@ func (d *rdb) flushProbe(j int) []string {
 	if len(d.tables) == 0 {
 		return nil
 	}
-	return []string{"DELETE FROM " + d.tables[j%len(d.tables)], "!again"}
+	t := d.tables[j%len(d.tables)]
+	if q, ok := d.probeIns[t]; ok && j%4 != 3 {
+		return []string{q, "!again"}
+	}
+	return []string{"DELETE FROM " + t, "!again"}
 }
 
 func probeField(probe []string) string {
@@ -280,5 +284,7 @@ func (d *rdb) reportTables() bool {
 		}
 		d.out(strings.TrimSpace(fmt.Sprintf("table %s rows %s", hxs(t), strings.Join(rs, " | "))))
 	}
+	// the row-id counter the next INSERT starts from: it must not be behind any row id in use
+	d.out(fmt.Sprintf("counter %d", d.rs.VerifHeader().LastKey))
 	return ok
 }
